@@ -409,6 +409,7 @@ pub const PRELUDE: &str = r#"// @generated by the corpus emitter — a shard of 
 
 fn attrs_count(attrs: Vec<syn::Attribute>) -> ::darling::Result<usize> { Ok(attrs.len()) }
 fn data_passthrough<V: ::darling::FromVariant, F: ::darling::FromField>(d: &syn::Data) -> ::darling::Result<::darling::ast::Data<V, F>> { ::darling::ast::Data::try_from(d) }
+fn gen_none_with<V>(_m: &syn::Meta) -> ::darling::Result<Option<V>> { Ok(None) }
 trait FlattenMark { fn mark(self) -> Self; fn rejects(&self) -> bool; }
 fn flatten_mark<T: FlattenMark>(v: T) -> T { v.mark() }
 fn flatten_rejects<T: FlattenMark>(v: &T) -> bool { v.rejects() }
